@@ -404,7 +404,26 @@ Fixpoint new_bounded (fuel : nat) (high scale : f64w) : option f64w :=
            else Some scale
   end.
 
-Definition windex_new_f (ws : list f64w) : werr + (list f64w * f64w) :=
+(** [Uniform::<f64>::new(0.0, high)]: [scale]; then [sample]:
+    value1_2 = 1.m with m = [next_u64 >> 12]; value0_1 = value1_2 - 1.0 = m * 2^-52 (exact);
+    result = value0_1 * scale + 0.0.
+    Order of the tests as compiled with debug assertions (the harness profile): finiteness first;
+    a NaN bound in a release build would be EmptyRange instead. *)
+Inductive uerr := UEmptyRange | UNonFinite | UFuel.
+Definition uniform_f64_new (high : f64w) : uerr + f64w :=
+  match high with
+  | Fin m _ => if m =? 0 then inl UEmptyRange
+               else match new_bounded 4 high high with Some s => inr s | None => inl UFuel end
+  | FNeg => inl UEmptyRange
+  | _ => inl UNonFinite
+  end.
+Definition uniform_f64_sample (scale : f64w) (st : rng) : f64w * rng :=
+  let (x, st) := next_u64 st in
+  (fadd (fmul (fround (N.shiftr x 12) (-52)) scale) f_zero, st).
+
+(** [WeightedIndex::<f64>::new]: cumulative weights, total, and the sampler's scale
+    ([X::Sampler::new(zero, total).unwrap()]: an infinite total panics) *)
+Definition windex_new_f (ws : list f64w) : werr + (list f64w * f64w * f64w) :=
   match ws with
   | [] => inl WInvalidInput
   | w0 :: r =>
@@ -412,26 +431,22 @@ Definition windex_new_f (ws : list f64w) : werr + (list f64w * f64w) :=
       match wcum_f r w0 [] with
       | inl e => inl e
       | inr (cum, total) =>
-        match total with
-        | Fin _ _ => match new_bounded 4 total total with
-                     | Some scale => inr (cum, scale)
-                     | None => inl WFuel
-                     end
-        | _ => inl WPanic
+        match uniform_f64_new total with
+        | inr scale => inr (cum, total, scale)
+        | inl UFuel => inl WFuel
+        | inl _ => inl WPanic
         end
       end
     else inl WInvalidWeight
   end.
 
-(** [sample]: value1_2 = 1.m with m = [next_u64 >> 12]; value0_1 = value1_2 - 1.0 = m * 2^-52 (exact);
-    chosen = value0_1 * scale + 0.0 *)
-Definition weighted_sample_f (ws : list f64w) (st : rng) : werr + (nat * rng) :=
+(** [WeightedIndex::new(weights)] + [sample]; also returns [total_weight()] *)
+Definition weighted_sample_f (ws : list f64w) (st : rng) : werr + (nat * f64w * rng) :=
   match windex_new_f ws with
   | inl e => inl e
-  | inr (cum, scale) =>
-    let (x, st) := next_u64 st in
-    let chosen := fadd (fmul (fround (N.shiftr x 12) (-52)) scale) f_zero in
-    inr (ppoint fle cum chosen, st)
+  | inr (cum, total, scale) =>
+    let (chosen, st) := uniform_f64_sample scale st in
+    inr (ppoint fle cum chosen, total, st)
   end.
 
 (** * A script of sampler calls run from a seed (the correspondence drives the real
@@ -443,7 +458,8 @@ Inductive call :=
 | CWeightedN (ws : list N)
 | CWeightedF (ws : list f64w)
 | CSetPos (block : N) (off : nat)
-| CPartial (len : N) (amount : nat) (show : bool).
+| CPartial (len : N) (amount : nat) (show : bool)
+| CUniformF (high : f64w).
 
 Definition lemire_fuel : nat := 64.
 
@@ -452,6 +468,13 @@ Definition werr_v (e : werr) : val :=
   L [I (-1)%Z; I (match e with WInvalidInput => 1 | WInvalidWeight => 2 | WInsufficientNonZero => 3
                              | WOverflow => 4 | WPanic => 5 | WFuel => 6 end)%Z].
 Definition v_fuel : val := L [I (-4)%Z].
+Definition f64w_v (x : f64w) : val :=
+  match x with
+  | Fin m e => L [I 0%Z; n_v m; I e]
+  | FInf => L [I 1%Z; I 0%Z; I 0%Z]
+  | FNaN => L [I 2%Z; I 0%Z; I 0%Z]
+  | FNeg => L [I 3%Z; I 0%Z; I 0%Z]
+  end.
 
 Definition run_call (c : call) (st : rng) : val * rng :=
   match c with
@@ -470,8 +493,12 @@ Definition run_call (c : call) (st : rng) : val * rng :=
                      end
   | CWeightedF ws => match weighted_sample_f ws st with
                      | inl e => (werr_v e, st)
-                     | inr (i, st) => (L [nat_v i], st)
+                     | inr (i, total, st) => (L [nat_v i; f64w_v total], st)
                      end
+  | CUniformF high => match uniform_f64_new high with
+                      | inl e => (L [I (-1)%Z; I (match e with UEmptyRange => 1 | UNonFinite => 2 | UFuel => 6 end)%Z], st)
+                      | inr scale => let (x, st) := uniform_f64_sample scale st in (f64w_v x, st)
+                      end
   | CSetPos b off => (L [], set_word_pos b off st)
   | CPartial len amount show =>
       let (js, st) := partial_indices len amount st in ((if show then list_v n_v js else L []), st)
@@ -502,7 +529,8 @@ Definition v_call (v : val) : call :=
   | 5%Z => CWeightedN (v_list v_hl (v_nth 1 v))
   | 6%Z => CWeightedF (v_list v_f64w (v_nth 1 v))
   | 7%Z => CSetPos (v_hl (v_nth 1 v)) (v_nat (v_nth 2 v))
-  | _ => CPartial (v_hl (v_nth 1 v)) (v_nat (v_nth 2 v)) (v_bool (v_nth 3 v))
+  | 8%Z => CPartial (v_hl (v_nth 1 v)) (v_nat (v_nth 2 v)) (v_bool (v_nth 3 v))
+  | _ => CUniformF (v_f64w (v_nth 1 v))
   end.
 
 (** (seed script) |-> (results (block-hi block-lo offset)): the results of the calls and [get_word_pos] at the end *)
@@ -513,8 +541,20 @@ Definition run_script (seed : N) (cs : list call) : val :=
 
 (** the statements of RNG_Props evaluated on an implementation's results: a range result is below
     its bound, a shuffle of 0..m is a permutation of 0..m, a weighted index names a positive weight *)
+(** [l] is a permutation of 0..m-1: m elements, each below m, none twice (positions are ticked off) *)
+Fixpoint tick (x : nat) (fl : list bool) : option (list bool) :=
+  match fl, x with
+  | [], _ => None
+  | b :: r, O => if b then None else Some (true :: r)
+  | b :: r, S x' => match tick x' r with Some r' => Some (b :: r') | None => None end
+  end.
+Fixpoint tick_all (l : list nat) (fl : list bool) : bool :=
+  match l with
+  | [] => true
+  | x :: r => match tick x fl with Some fl' => tick_all r fl' | None => false end
+  end.
 Definition is_perm_seq (m : nat) (l : list nat) : bool :=
-  Nat.eqb (length l) m && forallb (fun i => existsb (Nat.eqb i) l) (seq 0 m).
+  Nat.eqb (length l) m && tick_all l (repeat false m).
 Definition fpos (w : f64w) : bool := match w with Fin m _ => negb (m =? 0) | FInf => true | _ => false end.
 Definition check_call (c : call) (out : val) : bool :=
   match c with
@@ -532,12 +572,17 @@ Definition check_call (c : call) (out : val) : bool :=
                      | _ => false
                      end
   | CWeightedF ws => match out, windex_new_f ws with
-                     | L [I i], inr (_, Fin m _) =>
+                     | L [I i; L [I 0%Z; I _; I _]], inr (_, Fin m _, _) =>
                          (0 <=? i)%Z && Nat.ltb (Z.to_nat i) (length ws)
                          && (fpos (nth (Z.to_nat i) ws FNaN) || (m <? 4503599627370496))
                      | L [I _; I _], inl _ => true
                      | _, _ => false
                      end
+  | CUniformF high => match out, uniform_f64_new high with
+                      | L [I 0%Z; I _; I _], inr _ => fle (v_f64w out) high   (* a sample of [0, high) is at most high *)
+                      | L [I (-1)%Z; I _], inl _ => true
+                      | _, _ => false
+                      end
   | CSetPos _ _ => match out with L [] => true | _ => false end
   | CPartial len amount show =>
       let eff := if N.of_nat amount <? len then amount else N.to_nat len in
